@@ -38,7 +38,10 @@ RULE = ("random plate sets: 1-12 plates of unequal sizes 1..40 (single plate, si
         "and sub-sampling budgets 50, 777, 6000 (number of triples gathered = min(C, budget)); plus the hardening classes 10-13 (every argument a temporary of the shape of the previous round; one scorer object with another generator; "
         "plates scored in instalments vs one call; plate widths and plate counts 127/128/129/255/256/257; budgets 4999/5001 around the default); oracles "
         "fire only on valid inputs for stated clauses -- invalid shapes, < 3 samples, the empty dict, dict key order, in-place modification as such, "
-        "the internal pad helper and the number of sub-sampled triples are ties/counters; plus the scorer driven through real "
+        "the internal pad helper and the number of sub-sampled triples are ties/counters; plus (item 18) the scorer through the real calculate_scores.main() with --scorer-param max_chunk/max_triples (budgets C(n,3), C+1, 5000, "
+        "20000; n_thetas 34/36 so that the budget lies above the default), thetas / distance matrix split over two files, oracle on the scores file, tie on what "
+        "scorer and kernel receive; (item 19) a tenth of the plate sets, the classes, one n_thetas>33 case, a fifth of the real-object cases and the n>=34 / every third "
+        "CLI case under verbose logging (same oracles + bit-identical scores); plus the scorer driven through real "
         "Screen/Plate/ThetaHolder/ChunkedDistanceMatrix objects. Non-trivial: >= 2 plates of different sizes and some triple with positive distance.")
 
 RTOL = 1e-9
@@ -366,6 +369,7 @@ def eval_case(case, want_tie=True):
         bad("heteroscedastic entry point raises on valid input", het, "scores", "raises")
         return fails, tie, info
     het = [float(x) for x in het]
+    info["het"] = list(het)
     drawn_ok = len(ts_het) == 1 and sorted(ts_het[0]) == sorted(all_triples)
     if not drawn_ok:
         # how the kernel obtains its triples is C15's subject; here only the consequence (the score) is an oracle
@@ -665,6 +669,83 @@ def bigtheta_case(subseed, n, want_tie=True):
         if len(ts) == 1:
             tie.append(("het", "dbal.het %d %s %s %s %s" % (f2b(1.0), enc_mat(Dl), enc_triples(ts[0]), enc_3d(means), enc_3d(variances)), [float(x) for x in het]))
     return fails, tie, info
+
+
+@__import__("contextlib").contextmanager
+def common_quiet():
+    """leave a surrounding verbose_logging() for the duration of the block (the quiet twin of a verbose case in `replay`)"""
+    import logging
+    lg = logging.getLogger("batchie")
+    st = (lg.level, list(lg.handlers), lg.propagate, logging.root.manager.disable)
+    lg.handlers = []
+    lg.setLevel(logging.WARNING)
+    logging.disable(logging.CRITICAL)
+    try:
+        yield
+    finally:
+        lg.handlers, lg.propagate = st[1], st[2]
+        lg.setLevel(st[0])
+        logging.disable(st[3])
+
+
+def maybe_verbose(flag):
+    """HARDENING item 19: the `batchie` logger at DEBUG with a formatting sink (what -v/--verbose sets) around a slice of every stream"""
+    import contextlib
+    return common.verbose_logging() if flag else contextlib.nullcontext()
+
+
+def cli_case(case):
+    """HARDENING item 18: the scorer through the real `batchie.cli.calculate_scores.main()` (argv, real h5 files; thetas and the distance
+    matrix split over two files, distance entries in shuffled order) with its options given as `--scorer-param k=v`.
+    Concrete oracle (the property's text): every score in the file the CLI wrote equals the direct estimator of that plate over ALL
+    triples (the budget given on the command line covers C(n,3); with n_thetas = 34/36 it lies above the default 5000, so an option lost in
+    the glue shows in the score).  What the scorer / kernel RECEIVE (max_triples, max_chunk, max_combos, the generator, the dense
+    distance matrix, the set of plates) is compared as a tie (`tie:` signature)."""
+    from harness import dbal_cli as dc
+    n, budget, mc = case["n"], case["budget"], case["max_chunk"]
+    fails = []
+    rec = dc.run_cli(case["subseed"], n, budget, mc, case["seed"], verbose=case.get("verbose", False), split_files=case.get("split", True),
+                     n_chunks=case.get("n_chunks", 1), chunk_index=case.get("chunk_index", 0))
+    if "error" in rec:
+        fails.append(("calculate_scores.main() raises on valid input", rec["error"], "a scores file", "cli-raises"))
+        return fails, {}
+    D = rec["D"]
+    all_triples = [(a, b, cc) for a in range(n) for b in range(a) for cc in range(b)]
+    Dl = D.tolist()
+    valid_ids = set(int(p.plate_id) for p in rec["screen"].plates)
+    scores = rec["scores"]
+    for pid in sorted(scores):
+        if pid not in valid_ids:
+            continue
+        m, v = dc.plate_tables(rec["screen"], rec["holder"], pid)
+        want = ref_score(ref_logweights(Dl, 1.0, m, v, all_triples))
+        if not close(scores[pid], want):
+            used = sorted(set(len(dc.triples_from_logs(k["logs"][2], k["logs"][0], k["logs"][1]) or []) for c_ in rec["score_calls"] for k in c_["kernel"]))
+            fails.append(("score written by calculate_scores.main() (--scorer-param max_triples=%d >= C(%d,3) = %d) differs from the direct estimator "
+                          "of that plate over all triples" % (budget, n, math.comb(n, 3)),
+                          {"plate_id": pid, "score": scores[pid], "triples_used_per_kernel_call": used,
+                           "scorer_received": rec["init"][-1:] and {k_: rec["init"][-1][k_] for k_ in ("max_chunk", "max_triples")}}, want, "cli-score"))
+            break
+    # ---- what the core received: ties --------------------------------------------------------------------------------------------
+    got = {"init": [{k_: i[k_] for k_ in ("max_chunk", "max_triples", "types")} for i in rec["init"]],
+           "attrs": [c_["attrs"] for c_ in rec["score_calls"]],
+           "kernel_max_combos": sorted(set(str(k["max_combos"]) for c_ in rec["score_calls"] for k in c_["kernel"])),
+           "kernel_same_rng": all(k["same_rng"] for c_ in rec["score_calls"] for k in c_["kernel"]),
+           "rng_is_generator": all(c_["rng_is_generator"] for c_ in rec["score_calls"]),
+           "n_thetas": sorted(set(c_["n_thetas"] for c_ in rec["score_calls"])),
+           "dense_equal": all(c_["dense"].shape == D.shape and np.array_equal(c_["dense"], D) for c_ in rec["score_calls"]),
+           "plates_scored": sorted(scores), "kernel_calls": [len(c_["kernel"]) for c_ in rec["score_calls"]]}
+    want = {"init": [{"max_chunk": mc, "max_triples": budget, "types": ["int", "int"]}], "attrs": [{"max_chunk": mc, "max_triples": budget}],
+            "kernel_max_combos": [str(budget)], "kernel_same_rng": True, "rng_is_generator": True, "n_thetas": [n], "dense_equal": True,
+            "plates_scored": sorted(rec["chunk_plate_ids"]), "kernel_calls": [int(math.ceil(len(rec["chunk_plate_ids"]) / mc))]}
+    if not rec["chunk_plate_ids"]:
+        for k_ in ("attrs", "kernel_max_combos", "n_thetas", "kernel_calls"):
+            want[k_] = got[k_]
+    if got != want:
+        diff = {k_: (got[k_], want[k_]) for k_ in want if got[k_] != want[k_]}
+        fails.append(("what the scorer / kernel receive from calculate_scores.main() differs from the command line", {k_: v_[0] for k_, v_ in diff.items()},
+                      {k_: v_[1] for k_, v_ in diff.items()}, "tie:cli-received"))
+    return fails, {"scores": scores}
 
 
 def classes_case(subseed):
@@ -1022,6 +1103,42 @@ def run(ctx, res):
         res.nontrivial.add(("classes", case["subseed"]))
         for (what, observed, required, sig) in fails:
             emit(res, what, case, observed, required, sig)
+        if rep == 0:
+            vcase = dict(case, verbose=True)
+            with maybe_verbose(True):
+                vfails, _c = classes_case(case["subseed"])
+            res.count("class.verbose-logging")
+            res.count("class.verbose-logging.classes")
+            for (what, observed, required, sig) in vfails:
+                emit(res, what + " [verbose logging]", vcase, observed, required, sig)
+
+    # ---- item 18: the real entry point; item 19: some of them under --verbose, compared with the quiet run of the same input -------------
+    kseeds = ctx.subrng("cli")
+    C34 = math.comb(34, 3)
+    cli_cfg = [(4, 4, 2, 0), (5, 5000, 50, 7), (6, 20, 1, 0), (3, 1, 3, 11), (34, C34, 50, 5), (36, 20000, 2, 0), (34, C34 + 1, 1, 3), (8, 56, 3, 0)]
+    for _ in range(ctx.scale(0, 12, 6)):
+        nn = kseeds.choice([3, 4, 5, 6, 7, 9])
+        cli_cfg.append((nn, kseeds.choice([math.comb(nn, 3), math.comb(nn, 3) + 1, 5000, 5001]), kseeds.choice([1, 2, 3, 50]), kseeds.choice([0, 1, 12345])))
+    for ci_, (nn, bud, mc_, sd_) in enumerate(cli_cfg):
+        case = {"kind": "cli", "subseed": kseeds.randrange(2 ** 48), "n": nn, "budget": bud, "max_chunk": mc_, "seed": sd_, "split": ci_ % 3 != 1,
+                "n_chunks": 2 if ci_ % 4 == 3 else 1, "chunk_index": 1 if ci_ % 8 == 3 else 0, "verbose": False}
+        fails, out = cli_case(case)
+        res.evaluations += 1
+        res.count("class.entry-point.calculate_scores")
+        res.nontrivial.add(("cli", nn, bud, mc_))
+        for (what, observed, required, sig) in fails:
+            emit(res, what, case, observed, required, sig)
+        if ci_ % 3 == 0 or nn >= 34:
+            vcase = dict(case, verbose=True)
+            vfails, vout = cli_case(vcase)
+            res.evaluations += 1
+            res.count("class.verbose-logging")
+            res.count("class.verbose-logging.cli")
+            for (what, observed, required, sig) in vfails:
+                emit(res, what + " [--verbose]", vcase, observed, required, sig)
+            if not vfails and not fails and repr(sorted(vout["scores"].items())) != repr(sorted(out["scores"].items())):
+                emit(res, "calculate_scores.main() writes other scores under --verbose than without", vcase, sorted(vout["scores"].items()),
+                     sorted(out["scores"].items()), "verbose")
 
     n_cases = ctx.scale(400, 3000, 2000)
     big = ctx.tier == "thorough" or ctx.mode == "search"
@@ -1030,6 +1147,18 @@ def run(ctx, res):
     for t in range(n_cases):
         case = {"kind": "plateset", "subseed": seeds.randrange(2 ** 48), "big": bool(big and t % 3 != 0)}
         fails, tie, info = eval_case(case, want_tie=drv is not None)
+        if t % 10 == 3 and not fails:
+            # item 19: the same case under verbose logging: same oracles, and bit-identical scores
+            vcase = dict(case, verbose=True)
+            with maybe_verbose(True):
+                vfails, _vt, vinfo = eval_case(vcase, want_tie=False)
+            res.count("class.verbose-logging")
+            res.count("class.verbose-logging.plateset")
+            for (what, observed, required, sig) in vfails:
+                emit(res, what + " [verbose logging]", dict(vcase, n=info["n"], sizes=info["sizes"]), observed, required, sig)
+            if not vfails and repr(vinfo.get("het")) != repr(info.get("het")):
+                emit(res, "scores under verbose logging differ from the quiet run on the same input", dict(vcase, n=info["n"], sizes=info["sizes"]),
+                     vinfo.get("het"), info.get("het"), "verbose")
         res.evaluations += 1
         res.count("n_thetas.%d" % info["n"])
         res.count("plates.%s" % ("1" if len(info["sizes"]) == 1 else "2-4" if len(info["sizes"]) <= 4 else "5+"))
@@ -1071,7 +1200,12 @@ def run(ctx, res):
     for rep in range(ctx.scale(1, 4, 2)):
         for nb in (34, 36, 40):
             case = {"kind": "bigtheta", "subseed": bseeds.randrange(2 ** 48), "n": nb}
-            fails, tie, info = bigtheta_case(case["subseed"], nb, want_tie=drv is not None)
+            case["verbose"] = nb == 36
+            with maybe_verbose(case["verbose"]):
+                fails, tie, info = bigtheta_case(case["subseed"], nb, want_tie=drv is not None)
+            if case["verbose"]:
+                res.count("class.verbose-logging")
+                res.count("class.verbose-logging.bigtheta")
             res.evaluations += 1
             res.count("n_thetas.%d(C(n,3)>5000)" % nb)
             res.count("class.budget-vs-default(5000)")
@@ -1085,8 +1219,12 @@ def run(ctx, res):
 
     rseeds = ctx.subrng("real")
     for t in range(ctx.scale(40, 400, 200)):
-        case = {"kind": "realobjects", "subseed": rseeds.randrange(2 ** 48)}
-        fails, tie, info = real_objects_case(case["subseed"])
+        case = {"kind": "realobjects", "subseed": rseeds.randrange(2 ** 48), "verbose": t % 5 == 2}
+        with maybe_verbose(case["verbose"]):
+            fails, tie, info = real_objects_case(case["subseed"])
+        if case["verbose"]:
+            res.count("class.verbose-logging")
+            res.count("class.verbose-logging.realobjects")
         res.evaluations += 1
         res.count("real_objects")
         if len(set(info["sizes"])) >= 2:
@@ -1123,6 +1261,20 @@ def run(ctx, res):
 
 
 def replay(ctx, case, res):
+    with maybe_verbose(bool(case.get("verbose")) and case.get("kind") != "cli"):      # the CLI case passes --verbose itself
+        _replay(ctx, case, res)
+
+
+def _replay(ctx, case, res):
+    if case.get("kind") == "cli":
+        fails, _out = cli_case(case)
+        if not fails and case.get("verbose"):
+            qfails, qout = cli_case(dict(case, verbose=False))
+            if not qfails and repr(sorted(qout["scores"].items())) != repr(sorted(_out["scores"].items())):
+                fails.append(("calculate_scores.main() writes other scores under --verbose than without", sorted(_out["scores"].items()), sorted(qout["scores"].items()), "verbose"))
+        for (what, observed, required, sig) in fails:
+            emit(res, what, case, observed, required, sig, replaying=True)
+        return
     if case.get("kind") == "classes":
         fails, _counts = classes_case(case["subseed"])
         for (what, observed, required, sig) in fails:
@@ -1145,5 +1297,10 @@ def replay(ctx, case, res):
         fails, _tie, _info = eval_case({"kind": "plateset", "subseed": case["subseed"], "big": case["big"]}, want_tie=False)
         if any(not f[3].startswith("tie:") for f in fails):
             break
+    if case.get("verbose") and not any(not f[3].startswith("tie:") for f in fails):
+        with common_quiet():
+            _qf, _qt, qinfo = eval_case({"kind": "plateset", "subseed": case["subseed"], "big": case["big"]}, want_tie=False)
+        if repr(qinfo.get("het")) != repr(_info.get("het")):
+            fails = list(fails) + [("scores under verbose logging differ from the quiet run on the same input", _info.get("het"), qinfo.get("het"), "verbose")]
     for (what, observed, required, sig) in fails:
         emit(res, what, case, observed, required, sig, replaying=True)
